@@ -7,6 +7,7 @@ for f in mutants/*.diff seeded/*/patch.diff; do
   [ -f "$f" ] || continue
   case "$f" in *"$PAT"*) ;; *) continue;; esac
   if [[ "$f" == seeded/* ]]; then IDS=$(python3 -c "import json,sys;print(' '.join(k for k,v in json.load(open('$(dirname $f)/meta.json'))['checks'].items() if v=='caught'))"); else IDS=$(basename "$f" | cut -d- -f1); fi
+  if [ -z "$IDS" ]; then echo "n/a       $f (not claimed as caught, see its meta.json)"; continue; fi
   rc=0; out=""
   for ID in $IDS; do out=$(tools/mutcheck.sh "$f" "$ID" quick ${MUT_ARGS:-} 2>&1); rc=$?; [ $rc -eq 1 ] && break; done
   n=$(echo "$out" | grep -c "^VIOLATION")
